@@ -143,24 +143,24 @@ pub fn run_scenario(sc: &Scenario) -> Judged {
                         "output_depends_on_hash_keys".into(),
                         format!("same script, key sets #0 and #{}: {}", k, first_diff(w0, &whole)),
                     ));
-                    return j;
+                    break;
                 }
                 if &suf != s0 {
                     j.violations.push((
                         "output_depends_on_hash_keys".into(),
                         format!("same script, key sets #0 and #{} (part after ucinewgame): {}", k, first_diff(s0, &suf)),
                     ));
-                    return j;
+                    break;
                 }
             }
         }
     }
-    let (w0, suf0) = reference.unwrap();
+    let Some((w0, suf0)) = reference else { return j };
     j.sim_suffix_transcript = suf0.clone();
     // the same script under the first key set on a machine a million times slower (1 ms of
     // virtual time per node, 2 ms per clock read): depth-limited output must not notice
     // (not for the giant scenarios: they are there for the comparison with the fresh process)
-    if !sc.key_seeds.is_empty() && sc.suffix.iter().filter(|l| l.starts_with("go")).count() <= 8 {
+    if j.violations.is_empty() && !sc.key_seeds.is_empty() && sc.suffix.iter().filter(|l| l.starts_with("go")).count() <= 8 {
         let mut st = sim_state(sc.key_seeds[0], &sc.forced, sc.node_cap);
         st.clock.cost_node_ns = 1_000_000;
         st.clock.cost_read_ns = 2_000_000;
@@ -178,11 +178,10 @@ pub fn run_scenario(sc: &Scenario) -> Judged {
                     "output_depends_on_the_clock".into(),
                     format!("same script, same keys, clock 1 ms per node instead of 0: {}", if prefix_clocked { first_diff(&suf0, &suf) } else { first_diff(&w0, &whole) }),
                 ));
-                return j;
             }
         }
     }
-    if has_prefix {
+    if has_prefix && j.violations.is_empty() {
         // fresh process, suffix only
         let mut alone = sc.suffix.clone();
         alone.push("quit".into());
@@ -211,11 +210,21 @@ pub fn run_scenario(sc: &Scenario) -> Judged {
         s
     };
     // (3) real binary twice: two real key draws, real hasher states
-    if sc.real_binary && j.violations.is_empty() {
+    // (also when the simulation alone already disagrees with itself: if that comes from state
+    // the engine keeps outside the simulated process, only this comparison replays)
+    if sc.real_binary {
         if let Some(bin) = realbin::real_binary_path() {
             let input: Vec<u8> = j.real_script.iter().flat_map(|l| format!("{}\n", l).into_bytes()).collect();
-            let a = realbin::run_real(&bin, &input, std::time::Duration::from_secs(60));
-            let b = realbin::run_real(&bin, &input, std::time::Duration::from_secs(60));
+            let a = realbin::run_real(&bin, &input, std::time::Duration::from_secs(300));
+            let b = realbin::run_real(&bin, &input, std::time::Duration::from_secs(300));
+            // a real run that was still going after five minutes (an overloaded machine) says
+            // nothing: counted, not compared
+            if let (Ok(a), Ok(b)) = (&a, &b) {
+                if a.outcome == realbin::RealOutcome::TimedOut || b.outcome == realbin::RealOutcome::TimedOut {
+                    j.probes.add("real_binary_runs_inconclusive_timeout", 1);
+                    return j;
+                }
+            }
             if let (Ok(a), Ok(b)) = (a, b) {
                 j.probes.add("real_binary_twin_runs", 1);
                 let ta = realbin::normalise_transcript(&a.stdout);
@@ -323,7 +332,7 @@ pub fn generate_huge(seed: u64) -> Scenario {
         ],
         key_seeds: vec![rng.next_u64(), rng.next_u64()],
         forced: vec![],
-        real_binary: false,
+        real_binary: true,
         node_cap: 30_000_000,
     }
 }
